@@ -31,7 +31,7 @@ try:
     meths = ["textDocument/hover", "textDocument/definition", "textDocument/implementation", "textDocument/references",
              "textDocument/documentHighlight", "textDocument/rename", "textDocument/signatureHelp", "textDocument/completion"]
     for fn in sorted(os.listdir(root)):
-        if not fn.endswith(".f90"):
+        if not fn.lower().endswith(".f90"):
             continue
         del c.out[:]
         adapter.did_open(s, c, root, fn)
